@@ -479,13 +479,13 @@ var _ = strings.Contains
 func init() {
 	tail := "; each problem is solved/optimised with CuttingPlanes off and on (and, for a quarter of the problems without cost function, once more by a solver built without the last 1..6 constraints, which are then appended, the strategy being switched on last); the verif hook hands every constraint learned by the cutting-planes analysis to the harness, which evaluates it on all models of the original problem (n<=20); asserted: same verdict and optimum as without the strategy and as brute force, valid model, no panic, step watchdog (10^6 loop iterations; a failure for n<=12); non-trivial = >=1 constraint learned by the cutting-planes analysis"
 	vf.Register(
-		vf.Sub[Case]{Name: "cnf", Quick: 1200, Thorough: 25000, Gen: genCNF, Check: check, Floor: 0.3, StepLimitFails: stepFails,
+		vf.Sub[Case]{Name: "cnf", Quick: 1200, Thorough: 8000, Gen: genCNF, Check: check, Floor: 0.3, StepLimitFails: stepFails,
 			Rule: "domain A, pure CNF: small formulas with odd clause shapes, parity/pigeonhole formulas, threshold 3-SAT n in 10..40, clique-rich formulas (what DetectAtMostOne rewrites); with/without prior DetectAtMostOne" + tail},
-		vf.Sub[Case]{Name: "knapsack", Quick: 400, Thorough: 3000, Gen: genKnapsack, Check: check, Floor: 0.5,
+		vf.Sub[Case]{Name: "knapsack", Quick: 400, Thorough: 1000, Gen: genKnapsack, Check: check, Floor: 0.5,
 			Rule: "domain B, optimisation with 1..2 knapsack equalities (coefficients 1..25) over 12..17 variables, weighted objective over all variables, 0..2 cost literals fixed by unit constraints: hundreds to thousands of conflicts under cutting planes (restarts, reductions); brute force over 2^n" + tail},
-		vf.Sub[Case]{Name: "card", Quick: 10000, Thorough: 100000, Gen: genPB("card"), Check: check, Floor: 0.1, StepLimitFails: stepFails,
+		vf.Sub[Case]{Name: "card", Quick: 10000, Thorough: 40000, Gen: genPB("card"), Check: check, Floor: 0.1, StepLimitFails: stepFails,
 			Rule: "domain B, cardinality problems via ParseCardConstrs: uniform, dense, pigeonhole with at-most-one constraints; optional cost function; with/without prior DetectAtMostOne" + tail},
-		vf.Sub[Case]{Name: "pb", Quick: 10000, Thorough: 100000, Gen: genPB("pb"), Check: check, Floor: 0.1, StepLimitFails: stepFails,
+		vf.Sub[Case]{Name: "pb", Quick: 10000, Thorough: 40000, Gen: genPB("pb"), Check: check, Floor: 0.1, StepLimitFails: stepFails,
 			Rule: "domain B, PB problems via ParsePBConstrs: uniform, pigeonhole, set cover with cost function; with/without prior DetectAtMostOne" + tail},
 	)
 }
